@@ -122,12 +122,18 @@ def perturb_params(params, fold=1, lower_bound=None, upper_bound=None):
         for ii,bound in enumerate(lower_bound):
             if bound is None:
                 lower_bound[ii] = -numpy.inf
-        pnew = numpy.maximum(pnew, 1.01*numpy.asarray(lower_bound))
+        # Stay 1% inside the bound, whatever its sign.
+        lower = numpy.asarray(lower_bound, dtype=float)
+        pnew = numpy.maximum(pnew, numpy.where(lower < 0, 0.99*lower, 1.01*lower))
     if upper_bound is not None:
         for ii,bound in enumerate(upper_bound):
             if bound is None:
                 upper_bound[ii] = numpy.inf
-        pnew = numpy.minimum(pnew, 0.99*numpy.asarray(upper_bound))
+        upper = numpy.asarray(upper_bound, dtype=float)
+        pnew = numpy.minimum(pnew, numpy.where(upper < 0, 1.01*upper, 0.99*upper))
+    if lower_bound is not None:
+        # Bounds closer together than the two margins: the bounds themselves win.
+        pnew = numpy.maximum(pnew, lower)
     return pnew
 
 def make_fux_table(fid, ts, Q, tri_freq):
